@@ -30,26 +30,26 @@ def build():
                ("T-B64", r"b64_encode\(payload\)", "crate::vb64::b64_encode_bytes(payload)"),
                ("T-B64", r"b64_encode\(&signature\)", "crate::vb64::b64_encode_bytes(&signature)"),
                ("T-STR", r"signing_input\.as_bytes\(\)", "crate::vb64::str_as_bytes(&signing_input)")])})
-    u.verify(J, "encode_jwk", "jws", props=["C04"], fns={"encode_jwk": FnSpec(ret="r", sig="""
+    u.verify(J, "encode_jwk", "jws", props=["C04", "C15"], fns={"encode_jwk": FnSpec(ret="r", sig="""
     ensures
         // account creation / key-change inner object: the public key travels as jwk, there is no kid
         r matches Ok(s) ==> exists|h: JwsProtectedHeader| h.alg@ == crate::acx::alg_name(*sign_alg)
             && (h.jwk matches Some(j) && crate::acx::jwk_of(*key_pair, j)) && h.kid is None && h.nonce == nonce && h.url@ == url@
-            && is_jws(s@, KeyOrMac::Key(*key_pair), *sign_alg, serde_json::ser_spec(h), payload@), //@C04.jwk_header
+            && is_jws(s@, KeyOrMac::Key(*key_pair), *sign_alg, serde_json::ser_spec(h), payload@), //@C04.jwk_header,C15.jwk_header
 """, at=[("after_stmt_re", r"let (\w+) = JwsProtectedHeader \{", 1, "let ghost protected_hdr__ = $1;")])})
-    u.verify(J, "encode_kid", "jws", props=["C04"], fns={"encode_kid": FnSpec(ret="r", sig="""
+    u.verify(J, "encode_kid", "jws", props=["C04", "C15"], fns={"encode_kid": FnSpec(ret="r", sig="""
     ensures
         // every other request: the account URL travels as kid, the nonce and the exact URL are in the header, there is no jwk
         r matches Ok(s) ==> exists|h: JwsProtectedHeader| h.alg@ == crate::acx::alg_name(*sign_alg) && h.jwk is None
             && (h.kid matches Some(k) && k@ == key_id@) && (h.nonce matches Some(n) && n@ == nonce@) && h.url@ == url@
-            && is_jws(s@, KeyOrMac::Key(*key_pair), *sign_alg, serde_json::ser_spec(h), payload@), //@C04.kid_header
+            && is_jws(s@, KeyOrMac::Key(*key_pair), *sign_alg, serde_json::ser_spec(h), payload@), //@C04.kid_header,C15.kid_header
 """, at=[("after_stmt_re", r"let (\w+) = JwsProtectedHeader \{", 1, "let ghost protected_hdr__ = $1;")])})
-    u.verify(J, "encode_kid_mac", "jws", props=["C04"], fns={"encode_kid_mac": FnSpec(ret="r", sig="""
+    u.verify(J, "encode_kid_mac", "jws", props=["C04", "C15"], fns={"encode_kid_mac": FnSpec(ret="r", sig="""
     ensures
         // external account binding: HMAC with the hash matching the HS algorithm, kid, no nonce
         r matches Ok(s) ==> (*sign_alg is Hs256 || *sign_alg is Hs384 || *sign_alg is Hs512) && exists|h: JwsProtectedHeader|
             h.alg@ == crate::acx::alg_name(*sign_alg) && h.jwk is None && (h.kid matches Some(k) && k@ == key_id@) && h.nonce is None && h.url@ == url@
-            && is_jws(s@, KeyOrMac::Mac(key@), *sign_alg, serde_json::ser_spec(h), payload@), //@C04.eab_mac_header
+            && is_jws(s@, KeyOrMac::Mac(key@), *sign_alg, serde_json::ser_spec(h), payload@), //@C04.eab_mac_header,C15.eab_mac_header
 """, rewrites=[fmt,
                ("T-B64", r"b64_encode\(&protected\)", "crate::vb64::b64_encode_str(&protected)"),
                ("T-B64", r"b64_encode\(payload\)", "crate::vb64::b64_encode_bytes(payload)"),
